@@ -95,7 +95,10 @@ func (o Op) String() string {
 	case OpDelFrom:
 		return fmt.Sprintf("DeleteVersionsFrom(%d)+LoadVersion(%d)", o.Ver+1, o.Ver)
 	case OpRead:
-		return fmt.Sprintf("Read#%d(%q,v%d)", o.Arg, o.Key, o.Ver)
+		if o.Arg == 12 {
+			return "ReadEverything"
+		}
+		return fmt.Sprintf("Read#%d:%s(%q,v%d)", o.Arg, readCallNames[o.Arg], o.Key, o.Ver)
 	case OpImport:
 		return fmt.Sprintf("ExportImport(v%d,compress=%v)", o.Ver, o.Arg == 1)
 	case OpSaveCS:
@@ -268,7 +271,7 @@ func (w *World) Apply(op Op) *Violation {
 	if isMaint(op.Kind) {
 		w.NMaint++
 	}
-	if op.Kind == OpRead {
+	if op.Kind == OpRead && op.Arg != 12 {
 		w.NReads++
 	}
 	w.LastOp = op
@@ -322,15 +325,28 @@ func (w *World) apply(op Op) *Violation {
 			return viol("api", "LoadVersion(%d) returned %d, model latest %d", op.Ver, got, ml)
 		}
 	case OpDelTo:
+		var before []byte
+		if w.Strict {
+			before = dumpDigest(w)
+		}
 		err := t.DeleteVersionsTo(op.Ver)
+		noop := op.Ver < m.First
 		ok := m.DeleteVersionsTo(op.Ver)
 		if ok != (err == nil) {
 			return viol("api", "DeleteVersionsTo(%d) err=%v, model ok=%v", op.Ver, err, ok)
 		}
+		if w.Strict && (!ok || noop) {
+			if after := dumpDigest(w); !bytes.Equal(before, after) {
+				return viol("prune-effect", "DeleteVersionsTo(%d) (err=%v) must have no effect but changed the storage", op.Ver, err)
+			}
+		}
 	case OpLVFO:
 		err := t.LoadVersionForOverwriting(op.Ver)
 		_, ok := m.LoadVersion(op.Ver)
-		if ok {
+		if ok && m.pinnedAbove(op.Ver) {
+			// versions above the target are pinned by an open export: the load happens, the deletion is refused
+			ok = false
+		} else if ok {
 			m.Truncate(op.Ver)
 		}
 		if ok != (err == nil) {
@@ -338,6 +354,12 @@ func (w *World) apply(op Op) *Violation {
 		}
 	case OpDelFrom:
 		err := t.DeleteVersionsFrom(op.Ver + 1)
+		if m.pinnedAbove(op.Ver) {
+			if err == nil {
+				return viol("api", "DeleteVersionsFrom(%d) succeeded although a version above is pinned by an open export", op.Ver+1)
+			}
+			return nil
+		}
 		if err != nil {
 			return viol("api", "DeleteVersionsFrom(%d) error: %v", op.Ver+1, err)
 		}
